@@ -102,7 +102,7 @@ def run(ctx):
                 n_problems += len(_register(ctx, S, ["corpus", "chain", "labels:all"], items))
             finally:
                 S.close()
-    nbase = ctx.n(90, 320)
+    nbase = ctx.n(75, 280)
     per_base = ctx.n(2, 10)
     for _ in range(nbase):
         base, notes = TC.gen_base(ctx.rng, "C11")
@@ -155,7 +155,7 @@ def run(ctx):
             finally:
                 S.close()
     # ---- histories: one persistent destination index, per-round requests, external deletions
-    for _ in range(ctx.n(30, 200)):
+    for _ in range(ctx.n(24, 170)):
         case, notes = TC.gen_history(ctx.rng)
         S = TC.run_scenario(ctx, case)
         try:
